@@ -729,3 +729,11 @@ fire('C05', 'prs-tiebreak-by-queue-length (seed C05-a)', 'C05.R1', 'ReservablePr
                                                 'self.reserve_get_queue.sort(key=lambda e: (e.priority_to_get, e.arrival_order))')))
 silent('C05', 'buffer-cancel-hands-over-head (seed C01-a: breaks C01, not the service order)',
        lambda p: M.insert_before(p, S_BUF, 'BufferStore.reserve_put_cancel', lambda n: isinstance(n, ast.Return), 'if False:\n    self.reserve_put_queue.pop(0)'))
+fire('C03', 'pallet-shared-default-list (seed C03-a)', 'C03.R5', 'Pallet.__init__',
+     lambda p: {'helper/pallet.py': p.modules['helper/pallet.py'].src.replace('def __init__(self, id):', 'def __init__(self, id, items=[]):').replace('self.items = []', 'self.items = items')})
+fire('C03', 'pallet-class-level-list', 'C03.R5', 'Pallet',
+     lambda p: {'helper/pallet.py': p.modules['helper/pallet.py'].src.replace('        self.items = []  # List to hold contained items\n', '').replace(
+         '    """A class representing a pallet, which can hold multiple items."""\n', '    """A class representing a pallet, which can hold multiple items."""\n    items = []\n', 1)})
+silent('C03', 'pallet-default-none-then-fresh',
+       lambda p: {'helper/pallet.py': p.modules['helper/pallet.py'].src.replace('def __init__(self, id):', 'def __init__(self, id, items=None):').replace(
+           'self.items = []', 'self.items = list(items) if items is not None else []')})
